@@ -35,7 +35,12 @@ def _worker(args):
         if canary is not None:
             spec = [c for c in mod.CANARIES if c["name"] == canary][0]
             spec["patch"]()
-        mod.run(cfg, ctx)
+        if isinstance(cfg, dict) and cfg.get("kind") == "history_lemmas":
+            from engine import lemmas
+
+            lemmas.run(cfg, ctx)
+        else:
+            mod.run(cfg, ctx)
         ctx.finish()
     except Unsupported as e:
         out["status"] = "undecided"
@@ -88,6 +93,10 @@ def check(pid, tier, only_cfg=None, quiet=False):
     seed = int(os.environ.get("VERIF_SEED", "0"))
     mod = load_contract(pid)
     cfgs = mod.configs(tier)
+    if hasattr(mod, "HISTORY_LEMMAS"):
+        from engine import lemmas
+
+        cfgs = cfgs + [lemmas.config(mod.HISTORY_LEMMAS)]
     if only_cfg is not None:
         cfgs = [c for c in cfgs if c == only_cfg] or [only_cfg]
     nproc = int(os.environ.get("VERIF_JOBS", str(os.cpu_count() or 4)))
@@ -164,7 +173,7 @@ def check(pid, tier, only_cfg=None, quiet=False):
     functions = sorted({tuple(f) for res in results for f in res["functions"]})
     from engine.hw import file_sha
 
-    files = sorted({f[1] for f in functions})
+    files = sorted({f[1] for f in functions if not f[1].startswith("verif:")})
     assumptions = sorted({a for res in results for a in res["assumptions"]} | set(getattr(mod, "ASSUMPTIONS", [])))
     samples = [s for res in results for s in res["samples"]][:3]
     solver_time = sum(res["solver_time"] for res in results)
